@@ -318,6 +318,14 @@ def st_model(draw, sl_modes=("npa", "nst", "np", "ns"), families=("sl", "nldf", 
     spec["xc2"] = xc2
     nk = draw(st.integers(1, max_kernels))
     spec["kernels"] = [draw(st_kernel_part(xc2=xc2, modes=modes, evals=evals)) for _ in range(nk)]
+    if not xc2 and sl in ("nst", "ns"):
+        # the native GGA baselines read feature 1 as the reduced gradient s^2; in the 'nst'/'ns' modes that row
+        # holds sigma, so only the density-only native baselines are meaningful there
+        for k in spec["kernels"]:
+            if k["mul"] != "LDA_X":
+                k["mul"] = "LDA_X"
+            if k["add"] not in (None, "ZERO", "LDA_X"):
+                k["add"] = "LDA_X"
     spec["normalize"] = True
     return spec
 
